@@ -25,7 +25,7 @@ ASSUMPTIONS = [
 # hand-written programs that used to be (or are) run-dependent; regression cases
 CORPUS = [
     ({"main": 'fn main() { let o = new { b: 1, a: "x", c: [1, 2], d: true, e: 2.5, f: 3, g: 4 }; println(o); println(o.to_json()); }'}, "V21"),
-    ({"main": 'fn main() { let s = "{\\"a\\": \\"s\\", \\"b\\": \\"t\\", \\"c\\": \\"u\\"}"; try { let x: { a: int, b: int, c: int } = s.parse_json(); println(x.a); } catch e { println(e.message); } }'}, "V33"),
+    ({"main": 'fn main() { let s = "{\\"a\\": \\"s\\", \\"b\\": \\"t\\", \\"c\\": \\"u\\"}"; try { let x: { a: int, b: int, c: int } = s.parse_json(); println(x.a); } catch e { println(e.message); } }'}, "V35"),
     ({"main": "import b_f from a;\nimport f from a_b;\nfn main() { b_f(); f(); }",
       "a": 'pub fn b_f() { println("a.b_f"); }\nfn main() { }\nlet k = 1;',
       "a_b": 'pub fn f() { println("a_b.f"); }\nfn main() { }\nlet k2 = 1;'}, "V26"),
